@@ -197,3 +197,31 @@ pub fn quiet_panics() {
 thread_local! {
     pub static LAST_PANIC: RefCell<String> = const { RefCell::new(String::new()) };
 }
+
+// ---------------------------------------------------------------------------------------------- watchdog
+// A scenario that does not come back (a native loop the runtime limits do not see) must not stall a whole
+// check: once armed, the watchdog ends the process with exit status 3 when the deadline passes; the driver
+// (vlib.run_lines) then records the unanswered scenario as {"abort": "exit status 3: watchdog ..."}.
+static WATCHDOG_DEADLINE_MS: std::sync::atomic::AtomicU64 = std::sync::atomic::AtomicU64::new(0);
+
+fn now_ms() -> u64 {
+    std::time::SystemTime::now().duration_since(std::time::UNIX_EPOCH).map(|d| d.as_millis() as u64).unwrap_or(0)
+}
+
+/// Starts the watchdog thread (once per process).
+pub fn start_watchdog() {
+    std::thread::spawn(|| loop {
+        std::thread::sleep(std::time::Duration::from_millis(200));
+        let d = WATCHDOG_DEADLINE_MS.load(std::sync::atomic::Ordering::Relaxed);
+        if d != 0 && now_ms() > d {
+            eprintln!("watchdog: scenario exceeded its time budget");
+            std::process::exit(3);
+        }
+    });
+}
+
+/// Arms the watchdog for the scenario that starts now (`ms` = 0 disarms it).
+pub fn arm_watchdog(ms: u64) {
+    WATCHDOG_DEADLINE_MS.store(if ms == 0 { 0 } else { now_ms() + ms }, std::sync::atomic::Ordering::Relaxed);
+}
+
